@@ -144,7 +144,12 @@ impl EventGen for Container {
                 && (inner_text.is_some() || inner_events.is_empty())
             {
                 let mut el = self.0.clone();
-                if let Some(text) = &inner_text {
+                // White space alone between the tags of a shape (`<rect ..>\n</rect>`) is
+                // formatting, not a label.
+                if let Some(text) = inner_text
+                    .as_ref()
+                    .filter(|t| el.name == "text" || !t.trim().is_empty())
+                {
                     el.set_attr("text", text);
                 }
                 if let Some((start, _end)) = self.0.event_range {
